@@ -344,10 +344,13 @@ def rule_flow(ctx) -> RuleResult:
 
     # --- save side
     ce = ws.methods["create_entity"]
+    from ..roles import canon, returned_names
+    # roles: the created entity = the local the function returns; the save switch = its `save_on_creation` parameter
+    created = {nm: "CREATED" for nm in returned_names(ce.node)}
     saves = [i for i in ast.walk(ce.node) if isinstance(i, ast.If) and "save_on_creation" in unparse(i.test)]
-    ok = bool(saves) and all(any("self.save_entity(created_entity" in unparse(s) for s in i.body) for i in saves)
-    conj = {unparse(v) for v in saves[0].test.values} if saves and isinstance(saves[0].test, ast.BoolOp) else set()
-    ok = ok and conj == {"created_entity is not None", "save_on_creation", "self.h5file is not None"}
+    ok = bool(saves) and all(any("self.save_entity(CREATED" in canon(s, created) for s in i.body) for i in saves)
+    conj = {canon(v, created) for v in saves[0].test.values} if saves and isinstance(saves[0].test, ast.BoolOp) else set()
+    ok = ok and conj == {"CREATED is not None", "save_on_creation", "self.h5file is not None"}
     chk(ok, f"create_entity saves the created entity under {sorted(conj)}", "Workspace", "create_entity", "creation does not save the entity (or only conditionally)", ce.where,
         "a created entity is not written to the file at creation: it exists in memory only until something else saves it")
     se = ws.methods["save_entity"]
@@ -437,12 +440,20 @@ def rule_flow(ctx) -> RuleResult:
     chk(ok, "fetch_children marks recovered entities on_file", "Workspace", "fetch_children", "recovered entities are not marked on_file", fc.where,
         "setters on re-opened entities skip persistence (on_file False)")
     le = ws.methods["load_entity"]
+    from ..roles import bound_from, calls
+    # roles in load_entity: ATTRS = what fetch_attributes returned, ENT = what create_entity returned
+    lmap = {nm: "ATTRS" for nm in bound_from(le.node, lambda e: "fetch_attributes" in unparse(e))}
+    lmap.update({nm: "ENT" for nm in bound_from(le.node, lambda e: calls(e, "create_entity"))})
     ok = any(isinstance(c, ast.Call) and unparse(c.func) == "self.create_entity" and any(k.arg == "save_on_creation" and unparse(k.value) == "False" for k in c.keywords)
-             and any(k.arg is None and "attributes[0]" in unparse(k.value) and "attributes[1]" in unparse(k.value) for k in c.keywords) for c in ast.walk(le.node))
+             and any(k.arg is None and "ATTRS[0]" in canon(k.value, lmap) and "ATTRS[1]" in canon(k.value, lmap) for k in c.keywords) for c in ast.walk(le.node))
     chk(ok, "load_entity: create_entity(<kind>, save_on_creation=False, **entity attrs, **type attrs)", "Workspace", "load_entity", "entity not rebuilt from both attribute sets", le.where,
         "loaded entities lose their attributes or their type")
-    pg = [i for i in ast.walk(le.node) if isinstance(i, ast.If) and "attributes[2]" in unparse(i.test)]
-    ok = bool(pg) and "isinstance(entity, ObjectBase)" in unparse(pg[0].test) and "entity.create_property_group(on_file=True, **kwargs)" in unparse(pg[0])
+    pg = [i for i in ast.walk(le.node) if isinstance(i, ast.If) and "ATTRS[2]" in canon(i.test, lmap)]
+    ok = False
+    if pg:
+        loops = [lp for lp in ast.walk(pg[0]) if isinstance(lp, ast.For) and "ATTRS[2]" in canon(lp.iter, lmap) and isinstance(lp.target, ast.Name)]
+        ok = "isinstance(ENT, ObjectBase)" in canon(pg[0].test, lmap) and any(
+            f"ENT.create_property_group(on_file=True, **{lp.target.id})" in canon(lp, lmap) for lp in loops)
     chk(ok, "load_entity re-creates every stored property group", "Workspace", "load_entity", "stored property groups are not re-created", le.where,
         "property groups are lost on re-open")
     bc = next((d for d in ast.walk(le.node) if isinstance(d, ast.Dict) and all(isinstance(k, ast.Constant) for k in d.keys) and len(d.keys) >= 3), None)
@@ -453,7 +464,9 @@ def rule_flow(ctx) -> RuleResult:
     ok = skipped == {"Type", "PropertyGroups", "Concatenated Data"}
     chk(ok, f"H5Reader.fetch_children skips exactly {sorted(skipped) if skipped else skipped}", "H5Reader", "fetch_children", "child containers skipped changed", rc.where,
         "a child container (Data / Groups / Objects) is no longer listed: those children vanish on re-open")
-    asg = next((a for a in ast.walk(rc.node) if isinstance(a, ast.Assign) and isinstance(a.targets[0], ast.Subscript) and unparse(a.targets[0].value) == "children"), None)
+    from ..roles import returned_names
+    ret_names = returned_names(rc.node)
+    asg = next((a for a in ast.walk(rc.node) if isinstance(a, ast.Assign) and isinstance(a.targets[0], ast.Subscript) and unparse(a.targets[0].value) in ret_names), None)
     if asg is None:
         raise AnalysisError("H5Reader.fetch_children: children[...] assignment not found")
     for cont, want in (("Data", "Data"), ("Groups", "Group"), ("Objects", "ObjectBase")):
